@@ -91,6 +91,7 @@ func Gen(prop, tier string, seed uint64) *kernel.Plan {
 		cfg.Colls = g.Range(2, 3)
 	case "C18":
 		cfg.Oracles["notify"], cfg.Oracles["realtime"] = true, true
+		cfg.HoldPub = g.Chance(1, 2)
 	case "C19":
 		cfg.Oracles["rest"], cfg.Oracles["log"] = true, true
 	}
@@ -169,6 +170,9 @@ func Gen(prop, tier string, seed uint64) *kernel.Plan {
 		wWire = 15
 	case "C18":
 		wSync = 3
+		wReset = 1
+	case "C13":
+		wReset = 1
 	}
 	if prop == "C12" {
 		wPar = 20
@@ -210,6 +214,34 @@ func Gen(prop, tier string, seed uint64) *kernel.Plan {
 			evs = append(evs, e)
 		case 7:
 			evs = append(evs, Ev{T: "reset", A: g.Intn(3)})
+			// the applications of the reset collection start over: fresh clients, the same keys again
+			for x := 0; x < nAct; x++ {
+				if g.Chance(1, 4) {
+					continue
+				}
+				evs = append(evs, Ev{T: "rejoin", A: x})
+				for _, k := range c.keys {
+					if g.Chance(1, 4) {
+						continue
+					}
+					mode := []string{"create", "soc", "soc", "subscribe"}[g.Intn(4)]
+					if realtime {
+						// A realtime client whose entry request is refused (create of a key somebody else has
+						// re-created meanwhile, subscribe to a key nobody has) re-sends it at once, for ever
+						// (DeliverTransaction re-delivers while NeedPush): no statement of the given properties
+						// covers that, and the run would never become quiet. Realtime clients re-enter by
+						// subscribe-or-create.
+						mode = "soc"
+					}
+					evs = append(evs, Ev{T: "open", A: x, K: k, Kind: c.kindOf[k], Mode: mode})
+					if g.Chance(1, 2) {
+						evs = append(evs, c.localEv(x))
+					}
+					if g.Chance(2, 3) {
+						evs = append(evs, Ev{T: "sync", A: x})
+					}
+				}
+			}
 		case 8:
 			k := c.keys[g.Intn(len(c.keys))]
 			if g.Chance(1, 4) {
